@@ -13,6 +13,7 @@ package core
 
 import (
 	"strconv"
+	"sync"
 	"time"
 )
 
@@ -197,5 +198,63 @@ func VH_C07_reload_mixed(kind, pos int) {
 			vassert(gerr == nil, "unexpired-item-survives-reload")
 		}
 	}
+	vreach("end")
+}
+
+// ---- expiry observed by a reader that had to wait -----------------------------------------
+//
+// vhSlowStore: a storage back end whose Add takes long. While the writer is inside it (and so
+// holds the state lock) the reader is let go, and then the clock moves past x's expiry
+// instant. The reader cannot get the lock before the writer is done, so whatever it does
+// with the lock happens after the instant.
+
+type vhSlowStore struct {
+	*MemStorage
+	slowTo  int64 // the clock reading (ns) when a slow Add returns; 0: not slow
+	inLock  chan bool
+	started chan bool
+}
+
+func (s *vhSlowStore) Add(ctx *Context, loc string, data *Pair) error {
+	if s.slowTo != 0 {
+		close(s.inLock) // the writer holds the state lock now
+		<-s.started     // the reader is on its way
+		vyield()
+		vsetNow(s.slowTo)
+		s.slowTo = 0
+	}
+	return s.MemStorage.Add(ctx, loc, data)
+}
+
+// VH_C07_waiting_reader [concurrency mode]: a Get of x starts while a slow write of another
+// id holds the state lock; x's expiry instant passes during the write. The Get waited for
+// the lock across the instant: it does not return x.
+func VH_C07_waiting_reader(kind int) {
+	t0 := int64(1600000000)
+	vhSetSecs(t0 + 5)
+	ctx := NewContext("c07w")
+	mem, err := NewMemStorage(ctx)
+	vassume(err == nil)
+	store := &vhSlowStore{MemStorage: mem, inLock: make(chan bool), started: make(chan bool)}
+	st := vhNewState(ctx, kind, "here", store)
+	_, err = st.Add(ctx, "x", Map{"a": "1", "expires": float64(t0 + 10)})
+	vassume(err == nil)
+	store.slowTo = (t0 + 15) * 1000000000
+	var wg sync.WaitGroup
+	wg.Add(2)
+	var got Map
+	var gerr error
+	go func() {
+		st.Add(ctx.SubContext(), "y", Map{"b": "2"})
+		wg.Done()
+	}()
+	go func() {
+		<-store.inLock
+		close(store.started)
+		got, gerr = st.Get(ctx.SubContext(), "x")
+		wg.Done()
+	}()
+	wg.Wait()
+	vassert(gerr != nil || got == nil, "observable-iff-before-expiry")
 	vreach("end")
 }
